@@ -476,6 +476,8 @@ func c10ClientClass(err error) string {
 	return "other"
 }
 
+var c10ErrSector = errors.New("backend: unreadable sector")
+
 // shapes for data / attributes / strings returned by handlers
 var c10InfoShapes = []c10Info{
 	{name: "f", size: 0, mode: 0o644, mtime: 0, uid: 0, gid: 0},
@@ -859,7 +861,9 @@ func init() {
 				for _, sh := range []struct {
 					n   int
 					err error
-				}{{8, nil}, {8, io.EOF}, {3, io.EOF}, {3, nil}, {1, io.EOF}, {1, nil}} {
+				}{{8, nil}, {8, io.EOF}, {3, io.EOF}, {3, nil}, {1, io.EOF}, {1, nil},
+					// a store that fails part-way: the error must reach the client, not a short read that looks like the end of the file
+					{3, c10ErrSector}, {7, c10ErrSector}, {0, c10ErrSector}, {0, io.EOF}, {5, os.ErrPermission}} {
 					rec.mu.Lock()
 					rec.data, rec.readSet, rec.readN, rec.readErr = content, true, sh.n, sh.err
 					rec.mu.Unlock()
@@ -876,6 +880,21 @@ func init() {
 					rp := map[string]any{"object": kind.name, "n": sh.n, "err": fmt.Sprint(sh.err)}
 					if err != nil {
 						violate("data", fmt.Sprintf("exchange failed: %v", err), rp)
+						continue
+					}
+					if sh.err != nil && (sh.err != io.EOF || sh.n == 0) {
+						code, ok := f.statusCode()
+						want := uint32(sshFxFailure)
+						switch sh.err {
+						case io.EOF:
+							want = sshFxEOF
+						case os.ErrPermission:
+							want = sshFxPermissionDenied
+						}
+						if !ok || code != want || (want == sshFxFailure && !strings.Contains(string(f.body), sh.err.Error())) {
+							violate("data-error", fmt.Sprintf("ReadAt returned (%d, %v); the wire shows %v, want a status %d carrying the error", sh.n, sh.err, f, want), rp)
+						}
+						res.Outcome("read error as given")
 						continue
 					}
 					r := &c10rd{b: f.body}
